@@ -22,6 +22,10 @@ mod cloned_elem_rc_good;
 mod cloned_outlives_source_good;
 #[path = "copied_elem_rawptr_good.rs"]
 mod copied_elem_rawptr_good;
+#[path = "custom_atomic_iter_cloned_not_sync_good.rs"]
+mod custom_atomic_iter_cloned_not_sync_good;
+#[path = "custom_atomic_iter_copied_not_sync_good.rs"]
+mod custom_atomic_iter_copied_not_sync_good;
 #[path = "for_each_closure_ref_escape_good.rs"]
 mod for_each_closure_ref_escape_good;
 #[path = "iter_buffered_not_send_rc_good.rs"]
@@ -30,6 +34,8 @@ mod iter_buffered_not_send_rc_good;
 mod iter_elem_rc_good;
 #[path = "iter_new_elem_rc_moved_good.rs"]
 mod iter_new_elem_rc_moved_good;
+#[path = "iter_new_outlives_source_good.rs"]
+mod iter_new_outlives_source_good;
 #[path = "iter_not_send_rc_good.rs"]
 mod iter_not_send_rc_good;
 #[path = "move_vec_iter_elem_rc_good.rs"]
@@ -42,12 +48,18 @@ mod ref_outlives_array_good;
 mod ref_outlives_slice_source_good;
 #[path = "ref_outlives_vec_good.rs"]
 mod ref_outlives_vec_good;
+#[path = "slice_clone_outlives_source_good.rs"]
+mod slice_clone_outlives_source_good;
 #[path = "slice_from_elem_cell_shared_good.rs"]
 mod slice_from_elem_cell_shared_good;
+#[path = "slice_from_outlives_source_good.rs"]
+mod slice_from_outlives_source_good;
 #[path = "slice_into_elem_cell_good.rs"]
 mod slice_into_elem_cell_good;
 #[path = "slice_new_elem_cell_good.rs"]
 mod slice_new_elem_cell_good;
+#[path = "slice_new_outlives_source_good.rs"]
+mod slice_new_outlives_source_good;
 #[path = "values_outlives_iter_good.rs"]
 mod values_outlives_iter_good;
 #[path = "vec_con_iter_elem_cell_good.rs"]
@@ -101,19 +113,25 @@ fn main() {
     cloned_elem_rc_good::main();
     cloned_outlives_source_good::main();
     copied_elem_rawptr_good::main();
+    custom_atomic_iter_cloned_not_sync_good::main();
+    custom_atomic_iter_copied_not_sync_good::main();
     for_each_closure_ref_escape_good::main();
     iter_buffered_not_send_rc_good::main();
     iter_elem_rc_good::main();
     iter_new_elem_rc_moved_good::main();
+    iter_new_outlives_source_good::main();
     iter_not_send_rc_good::main();
     move_vec_iter_elem_rc_good::main();
     mutate_while_borrowed_good::main();
     ref_outlives_array_good::main();
     ref_outlives_slice_source_good::main();
     ref_outlives_vec_good::main();
+    slice_clone_outlives_source_good::main();
     slice_from_elem_cell_shared_good::main();
+    slice_from_outlives_source_good::main();
     slice_into_elem_cell_good::main();
     slice_new_elem_cell_good::main();
+    slice_new_outlives_source_good::main();
     values_outlives_iter_good::main();
     vec_con_iter_elem_cell_good::main();
     vec_from_elem_rc_moved_good::main();
